@@ -312,6 +312,13 @@ class PrioritizedReplayBuffer(ReplayBuffer):
             self._update_priority(self.tree_ptr, self.max_priority)
             self.tree_ptr = (self.tree_ptr + 1) % self.max_size
 
+    def clear(self) -> None:
+        """Clear all transitions and their priorities from the buffer."""
+        super().clear()
+        self.tree_ptr = 0
+        self.sum_tree = SumSegmentTree(self.sum_tree.capacity)
+        self.min_tree = MinSegmentTree(self.min_tree.capacity)
+
     def _update_priority(self, idx: int, priority: float) -> None:
         """Update the priority of an experience in the buffer.
 
